@@ -119,7 +119,7 @@ non-ASCII letters used to probe folding (`µ Μ μ ſ ς Σ σ Å å É é K ẞ
 def goLowerChar (c : Char) : Char :=
   if c.toNat < 128 then c.toLower else
   match c with
-  | 'Μ' => 'μ' | 'Σ' => 'σ' | 'Å' => 'å' | 'É' => 'é' | 'K' => 'k'   -- U+212A KELVIN SIGN → k
+  | 'Μ' => 'μ' | 'Σ' => 'σ' | 'Å' => 'å' | 'É' => 'é' | '\u212a' => 'k'   -- U+212A KELVIN SIGN → k
   | 'ẞ' => 'ß'
   | c => c
 
@@ -133,7 +133,7 @@ def foldChar (c : Char) : Char :=
   | 'ſ' => 's'                           -- U+017F LONG S
   | 'Σ' => 'σ' | 'ς' => 'σ'
   | 'Å' => 'å' | 'É' => 'é'
-  | 'K' => 'k'
+  | '\u212a' => 'k'                     -- U+212A KELVIN SIGN
   | 'ẞ' => 'ß'                           -- U+1E9E LATIN CAPITAL LETTER SHARP S ↔ U+00DF
   | c => c
 
@@ -144,7 +144,7 @@ def equalFold (a b : String) : Bool := a.toList.map foldChar == b.toList.map fol
 def isExportedName (s : String) : Bool :=
   match s.toList with
   | [] => false
-  | c :: _ => c.isUpper || c == 'Μ' || c == 'Σ' || c == 'Å' || c == 'É' || c == 'K' || c == 'ẞ'
+  | c :: _ => c.isUpper || c == 'Μ' || c == 'Σ' || c == 'Å' || c == 'É' || c == '\u212a' || c == 'ẞ'
 
 /-- `path.Ext`: the suffix beginning at the final dot in the final slash-separated element -/
 def pathExt (p : String) : String :=
